@@ -67,6 +67,48 @@ func treeTokens(r *rt.Runtime, c *rt.Code, out *[]string) {
 	}
 }
 
+func protoTokens(c *rt.Code, out *[]string) {
+	src, name, ops, lines, _ := rt.VerifCodeFields(c)
+	*out = append(*out, "S"+hlib.Hex(src), "S"+hlib.Hex(name), strconv.Itoa(len(ops)))
+	for _, op := range ops {
+		*out = append(*out, fmt.Sprintf("%08x", uint32(op)))
+	}
+	*out = append(*out, strconv.Itoa(len(lines)))
+	for _, l := range lines {
+		*out = append(*out, strconv.Itoa(int(l)))
+	}
+	*out = append(*out, strconv.Itoa(int(c.UpvalueCount)), strconv.Itoa(int(c.RegCount)), strconv.Itoa(int(c.CellCount)),
+		strconv.Itoa(len(c.UpNames)))
+	for _, n := range c.UpNames {
+		*out = append(*out, "S"+hlib.Hex(n))
+	}
+}
+
+// unitTokens: the UNREFACTORED prototype c followed by the constant vector it shares with the other functions of its
+// chunk (function constants as prototypes without their own constants): the input of RefactorCodeConsts.
+func unitTokens(c *rt.Code) []string {
+	out := []string{"P"}
+	protoTokens(c, &out)
+	_, _, _, _, consts := rt.VerifCodeFields(c)
+	out = append(out, strconv.Itoa(len(consts)))
+	for _, k := range consts {
+		switch k.Type() {
+		case rt.IntType:
+			out = append(out, "I"+strconv.FormatInt(k.AsInt(), 10))
+		case rt.FloatType:
+			out = append(out, fmt.Sprintf("D%016x", math.Float64bits(k.AsFloat())))
+		case rt.StringType:
+			out = append(out, "S"+hlib.Hex(k.AsString()))
+		case rt.CodeType:
+			out = append(out, "P")
+			protoTokens(k.AsCode(), &out)
+		default:
+			out = append(out, "?"+k.TypeName())
+		}
+	}
+	return out
+}
+
 // ---------------------------------------------------------------- generator
 
 type gen struct {
@@ -102,8 +144,8 @@ func (g *gen) anyVar() string {
 var strConsts = []string{`""`, `"x"`, `"hello"`, `"a\0b"`, `"line\nbreak"`, `"\255\128"`, `"a somewhat longer string constant that is not inlined"`,
 	`"tab\tquote\"bs\\"`, `"é€"`, `[[long
 bracket]]`}
-var intConsts = []string{"0", "1", "-1", "7", "255", "256", "65536", "1000003", "9223372036854775807", "math.mininteger", "0x7fffffff", "-32769", "4294967296"}
-var fltConsts = []string{"0.5", "1.5e300", "-0.0", "1e-320", "3.14159", "2^53", "1/0", "-1/0", "0/0", "1e15", "0x1p-1074", "123456.789"}
+var intConsts = []string{"100000", "9007199254740992", "1000000000000000", "0", "1", "-1", "7", "255", "256", "65536", "1000003", "9223372036854775807", "math.mininteger", "0x7fffffff", "-32769", "4294967296"}
+var fltConsts = []string{"100000.0", "9007199254740992.0", "1e15", "65536.0", "0.0", "0.5", "1.5e300", "-0.0", "1e-320", "3.14159", "2^53", "1/0", "-1/0", "0/0", "1e15", "0x1p-1074", "123456.789"}
 
 func (g *gen) atom() string {
 	switch g.rng.Below(9) {
@@ -278,12 +320,64 @@ var handSources = []string{
 	"return 1.5, -0.0, 1/0, 0/0, math.mininteger, 9007199254740993, 'a\\0b', ('x'):rep(70)",
 	"local a = ... return a.b.c",
 	"local ok, e = pcall(error, {code = 7}) if not ok then error('E' .. e.code, 1) end",
+	twinSrc,
+	manyConsts(300, 12),
+	manyConsts(12, 300),
+	manyConsts(700, 300),
 	"local co = coroutine.wrap(function(...) local x = coroutine.yield(...) return x * 2 end) return co(1, 2), co(21)",
 }
 
+// twin constants: an integer and a float of equal value (and both zeros) in ONE function; results are compared by
+// subtype and bit pattern, so a constant table that merges them shows
+const twinSrc = `local function twins(...)
+  return 100000, 100000.0, 9007199254740992, 9007199254740992.0, 1000000000000000, 1e15, 65536.0, 65536,
+    0.0, -0.0, 4294967296, 4294967296.0, -100000.0, -100000, "100000", 2^53, math.type(100000.0), math.type(100000)
+end
+local t = {100000.0, 100000, [100000] = "int key", [65536.0] = 65536}
+return twins, 100000.0, 100000, 1/0.0, 1/-0.0, t[1], t[2], twins()`
+
+// manyConsts: a chunk with nb distinct non-inlined constants before a nested function that has ni of its own and
+// returns closures two levels deeper: the dumped nested functions have their K-operands re-indexed from high unit
+// indices (>= 256 for nb >= 300) and, for ni >= 300, to new indices >= 256 as well.
+func manyConsts(nb, ni int) string {
+	var b strings.Builder
+	b.WriteString("local t = {}\n")
+	for i := 0; i < nb; i++ {
+		switch i % 3 {
+		case 0:
+			fmt.Fprintf(&b, "t[#t+1] = \"outer-const-%05d-padding\"\n", i)
+		case 1:
+			fmt.Fprintf(&b, "t[#t+1] = %d\n", 1000003+7*i)
+		default:
+			fmt.Fprintf(&b, "t[#t+1] = %d.25\n", 2000003+11*i)
+		}
+	}
+	b.WriteString("local function inner(a)\n  local u = {}\n")
+	for i := 0; i < ni; i++ {
+		switch i % 3 {
+		case 0:
+			fmt.Fprintf(&b, "  u[#u+1] = \"inner-const-%05d-padding\"\n", i)
+		case 1:
+			fmt.Fprintf(&b, "  u[#u+1] = %d\n", 3000017+13*i)
+		default:
+			fmt.Fprintf(&b, "  u[#u+1] = %d.5\n", 4000037+17*i)
+		}
+	}
+	b.WriteString(`  local function deep(x)
+    return "deep-const-one-padding", 5000011.75, x, function(y)
+      return "deeper-const-two-padding", 6000029, 6000029.0, y
+    end
+  end
+  return #u, u[1], u[2], u[3], u[#u], u[#u-1], u[#u-2], deep, deep(a)
+end
+`)
+	b.WriteString("return #t, t[1], t[2], t[3], t[#t], t[#t-1], t[#t-2], inner, inner(...)\n")
+	return b.String()
+}
+
 type env struct {
-	r              *rt.Runtime
-	dump, load, mk rt.Value
+	r                     *rt.Runtime
+	dump, load, mk, churn rt.Value
 }
 
 func newEnv() *env {
@@ -291,6 +385,13 @@ func newEnv() *env {
 	e := &env{r: r}
 	e.dump = e.compile("return string.dump")
 	e.load = e.compile(`return function(d, name) return load(d, name, "b", setmetatable({}, {__index = _G})) end`)
+	e.churn = e.compile(`return function(f)
+  local t = {}
+  for i = 1, 40 do t[i] = ("churn" .. i):rep(20) end
+  local s = table.concat(t)
+  local d = string.dump(f) .. string.dump(load("return 1, 'another function', 2.5"))
+  return #s + #d
+end`)
 	e.mk = e.compile(`return function(src, name) return load(src, name, "t", setmetatable({}, {__index = _G})) end`)
 	return e
 }
@@ -361,9 +462,34 @@ var argTuples = [][]rt.Value{
 
 func argName(i int) string { return "args" + strconv.Itoa(i) }
 
-// one function: export, dump, behaviour, re-dump
-func (e *env) doFunc(id string, src string) {
+// job: one closure whose dump was taken in phase 1 and is verified in phase 2, after every other dump and a lot of
+// other allocation has happened: the dump STRING kept here must still be what string.dump returned.
+type job struct {
+	id, name string
+	f        rt.Value
+	fresh    func() rt.Value
+	toks     []string // prototype tree after RefactorCodeConsts
+	utoks    []string // prototype + shared constant vector before it
+	d        string   // the value string.dump returned (not copied)
+	dumpErr  string
+}
+
+func dumpable(v rt.Value) bool {
+	cl, ok := v.TryClosure()
+	return ok && cl.UpvalueCount <= 1 && (cl.UpvalueCount == 0 || cl.UpNames[0] == "_ENV")
+}
+
+// collect: phase 1 for one source: the chunk itself and, to depth 3, the closures without free local variables that
+// it (or they) return when called without arguments.
+func (e *env) collect(id string, src string, jobs *[]job) {
 	name := "=" + id
+	mk := func() rt.Value {
+		_, fr, _ := hlib.PCall(e.r, e.mk, rt.StringValue(src), rt.StringValue(name))
+		if len(fr) == 0 {
+			return rt.NilValue
+		}
+		return fr[0]
+	}
 	class, res, msg := hlib.PCall(e.r, e.mk, rt.StringValue(src), rt.StringValue(name))
 	if class != hlib.OK || len(res) == 0 || res[0].IsNil() {
 		m := msg
@@ -373,40 +499,58 @@ func (e *env) doFunc(id string, src string) {
 		hlib.Emit("skip", id, hlib.Hex(m))
 		return
 	}
-	e.doClosure(id, res[0], name, func() rt.Value {
-		_, fr, _ := hlib.PCall(e.r, e.mk, rt.StringValue(src), rt.StringValue(name))
-		if len(fr) == 0 {
-			return rt.NilValue
-		}
-		return fr[0]
-	})
-	// the functions the chunk returns that have no upvalue besides _ENV are closures "without free local variables"
-	class, rs, _ := hlib.PCall(e.r, res[0])
-	if class == hlib.OK {
-		for i, v := range rs {
-			if cl, ok := v.TryClosure(); ok && cl.UpvalueCount <= 1 && (cl.UpvalueCount == 0 || cl.UpNames[0] == "_ENV") {
-				vv := v
-				e.doClosure(id+"."+strconv.Itoa(i), v, name, func() rt.Value { return vv })
-			}
+	e.collectClosure(id, res[0], name, mk, jobs)
+	e.collectSubs(id, res[0], name, 1, jobs)
+}
+
+func (e *env) collectSubs(id string, f rt.Value, name string, depth int, jobs *[]job) {
+	if depth > 3 {
+		return
+	}
+	class, rs, _ := hlib.PCall(e.r, f)
+	if class != hlib.OK {
+		return
+	}
+	for i, v := range rs {
+		if dumpable(v) {
+			vv := v
+			sid := id + "." + strconv.Itoa(i)
+			e.collectClosure(sid, v, name, func() rt.Value { return vv }, jobs)
+			e.collectSubs(sid, v, name, depth+1, jobs)
 		}
 	}
 }
 
-func (e *env) doClosure(id string, f rt.Value, name string, fresh func() rt.Value) {
+func (e *env) collectClosure(id string, f rt.Value, name string, fresh func() rt.Value, jobs *[]job) {
 	cl, ok := f.TryClosure()
 	if !ok {
 		return
 	}
-	var toks []string
-	treeTokens(e.r, e.r.RefactorCodeConsts(cl.Code), &toks)
+	j := job{id: id, name: name, f: f, fresh: fresh}
+	treeTokens(e.r, e.r.RefactorCodeConsts(cl.Code), &j.toks)
+	j.utoks = unitTokens(cl.Code)
 	class, res, msg := hlib.PCall(e.r, e.dump, f)
 	if class != hlib.OK || len(res) != 1 || res[0].Type() != rt.StringType {
-		hlib.Emit("dump", id, strings.Join(toks, " "), "=", class+"("+hlib.Hex(msg)+")")
+		j.dumpErr = class + "(" + hlib.Hex(msg) + ")"
+	} else {
+		j.d = res[0].AsString()
+	}
+	*jobs = append(*jobs, j)
+	// other work between two dumps: allocation, string building, and a dump that is thrown away
+	hlib.PCall(e.r, e.churn, f)
+}
+
+// verify: phase 2 for one closure
+func (e *env) verify(j job) {
+	id, f, name := j.id, j.f, j.name
+	hlib.Emit("unit", id, strings.Join(j.utoks, " "), "=", strings.Join(j.toks, " "))
+	if j.dumpErr != "" {
+		hlib.Emit("dump", id, strings.Join(j.toks, " "), "=", j.dumpErr)
 		return
 	}
-	d := res[0].AsString()
-	hlib.Emit("dump", id, strings.Join(toks, " "), "=", "x"+hlib.Hex(d))
-	// second dump of the same function, and dump of the reloaded function
+	d := j.d
+	hlib.Emit("dump", id, strings.Join(j.toks, " "), "=", "x"+hlib.Hex(d))
+	// a fresh dump of the same function now, and the dump of the reloaded function
 	_, res2, _ := hlib.PCall(e.r, e.dump, f)
 	class, lres, lmsg := hlib.PCall(e.r, e.load, rt.StringValue(d), rt.StringValue(name))
 	if class != hlib.OK || len(lres) == 0 || lres[0].IsNil() {
@@ -433,7 +577,7 @@ func (e *env) doClosure(id string, f rt.Value, name string, fresh func() rt.Valu
 		if len(fr) == 0 || fr[0].IsNil() {
 			continue
 		}
-		f0 := fresh() // a fresh instance from source, with a fresh environment
+		f0 := j.fresh() // a fresh instance from source, with a fresh environment
 		if f0.IsNil() {
 			continue
 		}
@@ -672,8 +816,12 @@ func main() {
 	case "gen":
 		e := newEnv()
 		ids, srcs := sources(tier)
+		var jobs []job
 		for i := range ids {
-			e.doFunc(ids[i], srcs[i])
+			e.collect(ids[i], srcs[i], &jobs) // phase 1: every dump is taken (and kept) before any is verified
+		}
+		for _, j := range jobs {
+			e.verify(j)
 		}
 	case "malgen":
 		malgen(tier)
